@@ -507,19 +507,21 @@ class Check:
             if self.nontrivial:
                 nt = 1 if self.nontrivial(r) else 0
             if nt:
-                for part in (res.get("signature") or "-").split(";"):
-                    sigs.add("%s|%s|%s|%s|%s" % (r.variant, res.get("scenario"), res.get("delay"),
-                                                 json.dumps(r.env, sort_keys=True), part))
-                # harnesses may report a count of distinct non-trivial cases they saw
-                nontriv += res.get("counters", {}).get("distinct_nontrivial", 0)
+                # harnesses that enumerate many cases per process count their own distinct
+                # non-trivial cases; otherwise distinct configuration signatures are counted
+                own = res.get("counters", {}).get("distinct_nontrivial", 0)
+                if own:
+                    nontriv += own
+                else:
+                    for part in (res.get("signature") or "-").split(";"):
+                        sigs.add("%s|%s|%s|%s|%s" % (r.variant, res.get("scenario"), res.get("delay"),
+                                                     json.dumps(r.env, sort_keys=True), part))
             for s in res.get("samples", []):
                 if len(samples) < 6:
                     samples.append({"run": r.tag or res.get("scenario"), "variant": r.variant, "case": s})
             for k, v in res.get("notes", {}).items():
                 notes.setdefault(k, v)
-        # harnesses that enumerate many cases per process count their own distinct
-        # non-trivial cases; otherwise distinct run signatures are counted
-        distinct = nontriv if nontriv else len(sigs)
+        distinct = nontriv + len(sigs)
         # violations -> known findings
         out_lines = []
         new_viol = []
